@@ -31,7 +31,7 @@ OrderDrift(r) == (r.e = "EbProbe" /\ r.mode \in {"std", "val"} /\ r.natt \in {1,
 \* natt = 2: the same connectivity with the position attribute coded by the parallelogram scheme under the wrap transform (EbDecoder!ParaPos): every
 \* reported point decodes to the predicted position
 \* natt = 3, 4, 5: constrained multi-parallelogram prediction with all crease flags clear / set / alternating (EbDecoder!CmPos)
-ParaDrift(r) == (r.e = "EbProbe" /\ r.mode \in {"std", "val"} /\ r.natt \in 2..5 /\ r.pred = "acc" /\ r.ok /\ Len(r.pred_pts) = r.np /\ Len(r.pts) = r.np) =>
+ParaDrift(r) == (r.e = "EbProbe" /\ r.mode \in {"std", "val"} /\ r.natt \in (2..5) \cup {-1} /\ r.pred = "acc" /\ r.ok /\ Len(r.pred_pts) = r.np /\ Len(r.pts) = r.np) =>
    Drift(\A p \in 1..r.np : r.pred_pts[p] # <<>> => r.pts[p] = r.pred_pts[p], "EbDecoder parallelogram prediction")
 \* natt >= 7: a second attribute with its own connectivity under a pattern of seam bits (EbDecoder!Seamed): accepted exactly when the model accepts, with
 \* the model's points and faces; every point holds the position of its vertex and the attribute value of its attribute vertex
